@@ -186,6 +186,7 @@ def run(ctx: core.Ctx):
                                  got.tolist(), np.asarray(want).tolist(), note="accessor result per pixel = kernel result; lambda 0 returns the input")
             if res.dtype != np.int16:
                 ctx.fail("whits", dict(dims=order), str(res.dtype), "int16")
+    core.acc_dispatch(ctx, ['whits'])
     ctx.trusted += ["native model driver (Hdc/Model/Smooth.lean at Rat and Float)", "harness/props/c03.py oracle"]
 
 
